@@ -104,6 +104,14 @@ def run_impl(inp, work):
             for lab in side['labels']:
                 rr = call(u.get_pos_values if inp['as'] == 'pos' else u.get_spec_values, lab)
                 w['values'][lab] = _q(rr[1]) if rr[0] == 'ok' else {'err': rr[1]}
+            # the same questions in the SORTED view (labels and sizes are re-ordered there; the ancillaries are not)
+            u.toggle_sorting()
+            w['sorted_sizes_by_label'] = dict(zip([str(x) for x in (u.pos_dim_labels if inp['as'] == 'pos' else u.spec_dim_labels)],
+                                                  [int(x) for x in (u.pos_dim_sizes if inp['as'] == 'pos' else u.spec_dim_sizes)]))
+            w['sorted_values'] = {}
+            for lab in side['labels']:
+                rr = call(u.get_pos_values if inp['as'] == 'pos' else u.get_spec_values, lab)
+                w['sorted_values'][lab] = _q(rr[1]) if rr[0] == 'ok' else {'err': rr[1]}
             out['wrapper'] = w
     return out
 
@@ -148,6 +156,13 @@ def oracle(inp, obs):
         if w['values'] != refall:
             fails.append('wrapper-values-%s-%s: get_%s_values returned %s, reference %s'
                          % (inp['as'], tag, inp['as'], w['values'], refall))
+        if w.get('sorted_values', refall) != refall:
+            fails.append('wrapper-values-sorted-view-%s-%s: after toggle_sorting get_%s_values returned %s, reference %s'
+                         % (inp['as'], tag, inp['as'], w['sorted_values'], refall))
+        want_sizes = {lab: sizes[i] for i, lab in enumerate(labels)}
+        if w.get('sorted_sizes_by_label', want_sizes) != want_sizes:
+            fails.append('wrapper-sizes-sorted-view-%s: sizes by label in the sorted view %s, true %s'
+                         % (tag, w['sorted_sizes_by_label'], want_sizes))
     return fails
 
 
